@@ -542,3 +542,46 @@ Proof.
   destruct H1 as (_ & total & _ & _ & _ & _ & _ & _ & _ & _ & _ & Bl & _). simpl.
   unfold is_admin in Ec. apply Z.eqb_eq in Ec. repeat split; try lia.
 Qed.
+
+(** ---- C06 for the staking farm: exact index growth of one settlement ---- *)
+Definition is_floor_s (q n d : Z) : Prop := q * d <= n < (q + 1) * d.
+
+Lemma settle_index_char s blk s' : settle s blk = Ok s' -> StkInv s ->
+  (blk <= s_last s -> s' = s) /\
+  (s_last s < blk ->
+     let unb := if s_produce s then s_rate s * (blk - s_last s) else 0 in
+     let total := Z.min (Z.min unb (apr_per_block s * (blk - s_last s))) (s_cap s - s_acc s) in
+     let cut := boosted_cut s total in
+     s_last s' = blk /\ s_acc s' = s_acc s + total /\ s_reserve s' = s_reserve s + total /\
+     s_pool s' = s_pool s + cut /\ 0 <= cut <= total /\
+     (s_supply s = 0 -> s_rps s' = s_rps s) /\
+     (0 < s_supply s -> is_floor_s (s_rps s' - s_rps s) ((total - cut) * s_dsc s) (s_supply s))).
+Proof.
+  unfold settle. intros H I. pose proof I as [cap bal ub ubnd ubnn fr fr2 (w1 & w2 & w3 & w4 & w5 & w6 & w7 & w8 & w9)].
+  apply bind_ok in H. destruct H as (remaining & Hrem & H). apply sub_chk_ok in Hrem. destruct Hrem as [_ ->].
+  destruct (blk <=? s_last s) eqn:E.
+  { apply Z.leb_le in E. inversion H; subst. split; [reflexivity|lia]. }
+  apply Z.leb_gt in E. split; [lia|]. intros _. cbv zeta in *.
+  pose proof (apr_per_block_nonneg s w5 w3) as Hapr.
+  set (unb := if s_produce s then s_rate s * (blk - s_last s) else 0) in *.
+  assert (Hunb : 0 <= unb) by (unfold unb; destruct (s_produce s); nia).
+  set (aprb := apr_per_block s * (blk - s_last s)) in *.
+  assert (Haprb : 0 <= aprb) by (unfold aprb; nia).
+  set (total := Z.min (Z.min unb aprb) (s_cap s - s_acc s)) in *.
+  assert (T0 : 0 <= total) by (unfold total; lia).
+  destruct (total =? 0) eqn:E0.
+  { apply Z.eqb_eq in E0. inversion H; subst s'; clear H. simpl. rewrite E0.
+    assert (C0 : boosted_cut s 0 = 0).
+    { unfold boosted_cut. destruct ((s_pct s =? 0) || negb (s_factors s)); [reflexivity|]. rewrite Z.mul_0_l. apply Z.div_0_l. pose proof maxp_pos; lia. }
+    rewrite C0. repeat split; try lia. }
+  pose proof (boosted_cut_bounds s total T0 w4) as Hc.
+  set (cut := boosted_cut s total) in *. clearbody cut total unb aprb.
+  apply bind_ok in H. destruct H as (inc & Hinc & H). inversion H; subst s'; clear H. simpl.
+  split; [lia|]. split; [lia|]. split; [lia|]. split; [lia|]. split; [lia|]. split.
+  - intros Hs. rewrite Hs in Hinc. simpl in Hinc. inversion Hinc. lia.
+  - intros Hs. destruct (s_supply s =? 0) eqn:ES; [apply Z.eqb_eq in ES; lia|].
+    apply div_chk_ok in Hinc. destruct Hinc as [_ ->].
+    replace (s_rps s + (total - cut) * s_dsc s / s_supply s - s_rps s) with ((total - cut) * s_dsc s / s_supply s) by lia.
+    unfold is_floor_s. pose proof (Z.mul_div_le ((total - cut) * s_dsc s) (s_supply s) Hs).
+    pose proof (Z.mul_succ_div_gt ((total - cut) * s_dsc s) (s_supply s) Hs). lia.
+Qed.
